@@ -1,13 +1,14 @@
 #!/usr/bin/env python3
-"""seed_regress.py [filter]: applies every kept seeded change (seeded/<id>/patch.diff) to /repo in turn, runs the quick
+"""seed_regress.py [filter [start-name]]: applies every kept seeded change (seeded/<id>/patch.diff) to /repo in turn, runs the quick
 check of its property (plus the checks recorded as having caught it), expects a VIOLATION, restores /repo.
 Prints one line per seed; exit 1 if a seed that applies is no longer caught."""
 import json, os, re, subprocess, sys
 flt = sys.argv[1] if len(sys.argv) > 1 else ''
+start = sys.argv[2] if len(sys.argv) > 2 else ''
 bad = 0
 for name in sorted(os.listdir('/verif/seeded')):
     d = '/verif/seeded/' + name
-    if not os.path.exists(d + '/patch.diff') or flt not in name:
+    if not os.path.exists(d + '/patch.diff') or flt not in name or name < start:
         continue
     prop = name[:3]
     checks = [prop]
